@@ -238,7 +238,8 @@ def h1(ctx):
                             probs.append("argument %d missing" % idx)
                             continue
                         ok = False
-                        names = [x.id for x in ast.walk(a) if isinstance(x, ast.Name)]
+                        # the etag must be the listing tuple's own element, not something looked up again
+                        names = [a.id] if isinstance(a, ast.Name) else ([] if idx == 2 else [x.id for x in ast.walk(a) if isinstance(x, ast.Name)])
                         for nm in names:
                             for df in du.reaching(n, nm):
                                 if df.kind == "for" and isinstance(df.value, ast.Call) and \
@@ -273,6 +274,22 @@ def h1(ctx):
         obs.append(ctx.ob(bool(fors), fi.qualname, fi.where, "enumerates self.store.iter_with_etag()",
                           "listing source is the store iterator",
                           "%s no longer iterates self.store.iter_with_etag()" % nm))
+    # sub-collections: listing and lookup consult the same store.subdirectories(), unconditionally
+    sc = ctx.own_method("xandikos.web.StoreBasedCollection", "subcollections")
+    cfg = ctx.cfg(sc)
+    fors = [n for n in cfg.nodes if n.kind == "for" and isinstance(n.ast.iter, ast.Call) and dotted(n.ast.iter.func) == "self.store.subdirectories"]
+    uncond = bool(fors) and cfg.exit.id not in cfg.reachable([cfg.entry], block_nodes=fors)
+    obs.append(ctx.ob(uncond, sc.qualname, sc.where, "subcollections() enumerates store.subdirectories() on every path",
+                      "no early exit before the enumeration",
+                      "subcollections() can return without enumerating self.store.subdirectories(), while get_member() still resolves those names: a nested "
+                      "collection answers Depth:0 but is missing from its parent's Depth:1 listing"))
+    gm = ctx.own_method("xandikos.web.StoreBasedCollection", "get_member")
+    uses = any(isinstance(n, ast.Call) and dotted(n.func) == "self.store.subdirectories" for n in ast.walk(gm.node))
+    mem = ctx.own_method("xandikos.web.StoreBasedCollection", "members")
+    lists = any(isinstance(n, ast.Call) and dotted(n.func) == "self.subcollections" for n in ast.walk(mem.node))
+    obs.append(ctx.ob(uses and lists, gm.qualname, gm.where, "get_member and members() agree on sub-collections",
+                      "lookup checks store.subdirectories(); listing chains subcollections()",
+                      "members() and get_member() no longer consult the same source for sub-collections"))
     if n_sites < 4:
         raise AnalysisError("only %d resource-minting call sites found" % n_sites)
     return obs
